@@ -37,7 +37,7 @@ type ConcCase struct {
 
 // concKinds keeps the slow kinds (RSA-3072, DSA, P-521) rare; RSA is frequent because PKCS#1 v1.5
 // verification reads the digest late, which is where shared state between callers shows.
-var concKinds = []string{"p256", "p256", "p256", "p256", "p256", "p256", "rsa2048", "rsa2048", "rsa2048", "rsa2048", "rsa2048", "rsa2048", "rsa1024", "rsa1024", "rsa1024", "p384", "p224", "rsa3072", "dsa1024"}
+var concKinds = []string{"p256", "p256", "p256", "p256", "p256", "p256", "rsa2048", "rsa2048", "rsa2048", "rsa2048", "rsa2048", "rsa2048", "rsa1024", "rsa1024", "rsa2050", "rsa2062", "p384", "p224", "rsa3072", "dsa1024"}
 
 func genConc(t *rapid.T) ConcCase {
 	c := ConcCase{Seed: rapid.Uint64().Draw(t, "seed"), Workers: 4 + pick(t, "workers", 13), Rounds: 4 + pick(t, "rounds", 9)}
@@ -56,11 +56,11 @@ func genConc(t *rapid.T) ConcCase {
 			it.Kind = "sth"
 		default:
 			it.Kind = "create"
-			if ns := nativeSig(keys.Get(it.Key)); ns != sigRSA && ns != sigECDSA {
+			if ns := nativeSig(getKey(it.Key)); ns != sigRSA && ns != sigECDSA {
 				it.Kind = "blob"
 			}
 		}
-		k := keys.Get(it.Key)
+		k := getKey(it.Key)
 		switch it.Kind {
 		case "blob", "create":
 			ml := pick(t, l+".len", 48)
@@ -94,6 +94,18 @@ func genConc(t *rapid.T) ConcCase {
 }
 
 // concJob is a prepared item: run() is what the goroutines call, want the reference verdict.
+// slowKind: verification with these costs a millisecond or more.
+func slowKind(k *keys.Key) bool {
+	if k == nil {
+		return false
+	}
+	switch k.Kind {
+	case "rsa3072", "dsa1024", "dsa2048", "p521", "p384", "bp256t1":
+		return true
+	}
+	return false
+}
+
 type concJob struct {
 	slow bool // signing, or a slow key kind: first round only
 	desc string
@@ -108,7 +120,7 @@ func checkConc(t *testing.T, c ConcCase) (v harness.Verdict) {
 
 	var jobs []concJob
 	for i, it := range c.Items {
-		k := keys.Get(it.Key)
+		k := getKey(it.Key)
 		v.Class("item:"+it.Kind, "key:"+k.Kind, hashClass(it.Hash))
 		switch it.Kind {
 		case "blob":
@@ -117,7 +129,7 @@ func checkConc(t *testing.T, c ConcCase) (v harness.Verdict) {
 				applyMut(p, m)
 			}
 			ds := tls.DigitallySigned{Algorithm: tls.SignatureAndHashAlgorithm{Hash: tls.HashAlgorithm(p.hash), Signature: tls.SignatureAlgorithm(p.sig)}, Signature: p.val}
-			jobs = append(jobs, concJob{desc: fmt.Sprintf("item %d VerifySignature key=%s hash=%d sigalg=%d msglen=%d", i, p.keyName, p.hash, p.sig, len(p.msg)),
+			jobs = append(jobs, concJob{slow: slowKind(p.key), desc: fmt.Sprintf("item %d VerifySignature key=%s hash=%d sigalg=%d msglen=%d", i, p.keyName, p.hash, p.sig, len(p.msg)),
 				want: refVerify(p.pub, p.hash, p.sig, p.msg, p.val),
 				run:  func() (error, any) { return callVerify(p.pub, p.msg, ds) }})
 		case "sct", "sth":
@@ -141,11 +153,11 @@ func checkConc(t *testing.T, c ConcCase) (v harness.Verdict) {
 			}
 			sv := &ct.SignatureVerifier{PubKey: o.p.pub}
 			kind := it.Kind
-			jobs = append(jobs, concJob{desc: fmt.Sprintf("item %d Verify%sSignature key=%s hash=%d sigalg=%d", i, kind, o.p.keyName, o.p.hash, o.p.sig),
+			jobs = append(jobs, concJob{slow: slowKind(o.p.key), desc: fmt.Sprintf("item %d Verify%sSignature key=%s hash=%d sigalg=%d", i, kind, o.p.keyName, o.p.hash, o.p.sig),
 				want: want, run: func() (error, any) { return o.verifyWith(kind, sv) }})
 		case "create":
 			hash, msg := it.Hash, it.Msg
-			jobs = append(jobs, concJob{desc: fmt.Sprintf("item %d CreateSignature key=%s hash=%d msglen=%d", i, k.Name, hash, len(msg)),
+			jobs = append(jobs, concJob{slow: true, desc: fmt.Sprintf("item %d CreateSignature key=%s hash=%d msglen=%d", i, k.Name, hash, len(msg)),
 				run: func() (err error, pan any) {
 					defer func() { pan = recover() }()
 					var ds tls.DigitallySigned
@@ -164,16 +176,6 @@ func checkConc(t *testing.T, c ConcCase) (v harness.Verdict) {
 					}
 					return nil, nil
 				}})
-		}
-	}
-
-	for i := range jobs {
-		switch keys.Get(c.Items[i].Key).Kind {
-		case "rsa3072", "dsa1024", "dsa2048", "p521", "p384":
-			jobs[i].slow = true
-		}
-		if c.Items[i].Kind == "create" {
-			jobs[i].slow = true
 		}
 	}
 
@@ -245,5 +247,5 @@ func checkConc(t *testing.T, c ConcCase) (v harness.Verdict) {
 var Conc = harness.Define(harness.Opts{
 	Name:  "concurrent",
 	Rule:  "6-20 prepared jobs (tls.VerifySignature on valid / once-mutated signatures, VerifySCTSignature, VerifySTHSignature, tls.CreateSignature whose output must satisfy the reference; two hash codes per case; P-256 and RSA-2048 frequent, RSA-3072 / DSA-1024 / P-384 rare; messages up to 4 KiB) run by 4-16 goroutines released together, 4-12 rounds each in rotated order (signing and slow key kinds in the first round only); every verdict must equal the reference verdict computed beforehand (and the verdict of a sequential pass). No timing is asserted. Every case is non-trivial",
-	Quick: 250, Thorough: 1500,
+	Quick: 200, Thorough: 1500,
 }, genConc, checkConc)
